@@ -166,4 +166,60 @@ CHECKS["C37"] = dict(
     design_ref="DESIGN.md §4 C37",
 )
 
+CHECKS["C01"] = dict(
+    category='exploration',
+    technique='exhaustive short-string enumeration + grammar-based generation + token-level mutation (+ atheris coverage-guided fuzzing in thorough) with a validity-predicate oracle',
+    text="For each (environment, source) the entry points env.lex, env.parse, env.compile(raw=True) followed by Python's compile, and env.from_string must each return or raise TemplateSyntaxError/TemplateAssertionError with an int lineno in 1..1+line breaks, and must agree with each other; anything else (other exception type, generated code Python rejects) is a violation. Seven environments (default, custom delimiters, line statements, trim+lstrip, async, sandboxed, four extensions); streams: every concatenation of <=3 (thorough <=4, default env, 14.8M) fragments from a 62-fragment alphabet, a byte-driven grammar printer with a trouble-biased identifier pool, 15 kinds of token-level mutation over grammar output and 682 repository seed templates, and in thorough an atheris target (200k runs). 1.8M cases quick. Found F38/F46, F41/F52 and F37; 6/6 source mutants killed; every fixed C01 defect replays as a violation on the pinned snapshot.",
+    note="Inputs <=400 chars, no lone surrogates, NFKC-normalised (F37 known); block nesting <15, expression nesting <30, operator chain <40 (F2 known: CPython limits); bounded numeric magnitudes (F19 unbounded folding known, never executed); 'never hangs' decided by those size bounds plus a 60 s watchdog that only yields exit 2.",
+    design_ref="DESIGN.md §4 C01",
+)
+
+CHECKS["C04"] = dict(
+    category='exploration',
+    technique='property-based test: Hypothesis-generated inheritance chains (JSON IR) against an independent inheritance resolver',
+    text='Chains of up to 5 templates and 5 block names with nested, scoped, unscoped and required blocks, super / super.super / self.x, static / conditional / variable / Template-object / if-wrapped extends, stray child output, loops, includes, call and filter blocks, assignments and macros, child blocks inside if/for/with/set-block; every chain member is rendered in sync and async mode and compared with a reference resolver that never imports jinja2: exact text, or error family (TemplateRuntimeError for an un-overridden required block, UndefinedError for a called super beyond the root). 38k cases quick, 576k thorough; 13/13 mutants killed; found F30, F32, F42.',
+    note='Shared leaf-first context model (DESIGN §3.3, probe-validated); shapes the docs leave undefined are discarded or never generated (derived-context reads through self.b(), multi-level or unreachable required, inner-scope reads of later-assigned names); errors compared by family only.',
+    design_ref="DESIGN.md §4 C04",
+)
+
+CHECKS["C05"] = dict(
+    category='exploration',
+    technique='property-based test: Hypothesis-generated library/user template sets against an independent context-propagation and module-export model',
+    text='Sets of 1-3 libraries and 1-2 user templates; libraries print visibility probes and define public and _private assignments and macros at top level and under if/for/with/set-block, nested imports/includes and own-name-then-import collisions; include and import in every flag and target form (with/without context, ignore missing, name lists with missing first entries, names / lists / Template objects in variables, missing and broken targets) at top level and inside for/with/macro/set-block/call/filter scopes whose locals overlap context and globals. Rendered in sync and async mode and compared with the reference model; make_module(data) export names, scalar values and body text compared for every template. 21k cases quick, 288k thorough; 14/14 mutants killed; found F29.',
+    note='DESIGN §3.4 model; only environment globals; closure and inner-scope reads of later-assigned names are discarded (~1.4%).',
+    design_ref="DESIGN.md §4 C05",
+)
+
+CHECKS["C09"] = dict(
+    category='exploration',
+    technique='differential property-based test: the same case in two environments differing only in enable_async',
+    text='Hypothesis draws cases of four families over the shared G-stmt, G-expr, G-inherit and G-modules generators plus a pipeline generator covering every filter with an async variant, custom async filters and tests, and for-loop features; each case runs in paired environments of class Environment / SandboxedEnvironment / ImmutableSandboxedEnvironment / NativeEnvironment, autoescape on or off, the async side optionally given coroutine functions, async generators, awaitable attributes and async methods producing the same results. Entry points render, render_async, generate, generate_async and make_module vs make_module_async; oracle: identical text (native: identical value and type) or an exception of exactly the same class. 32k cases quick, 390k thorough; 25/25 non-equivalent mutants killed; found F45.',
+    note='A defect common to both modes is invisible here (covered by the reference-model properties); excluded, counted known classes: F27 (lazy filter result into a sync-only consumer), F41k (eager async unique/slice when their input raises), F53 (native sync render stringifies outputs while the template is still running); data showing object addresses or non-terminating programs are discarded.',
+    design_ref="DESIGN.md §4 C09",
+)
+
+CHECKS["C22"] = dict(
+    category='exploration',
+    technique='property-based test: generated (filter, sequence, call shape) triples against executable specifications written from the docstrings, plus agreement between all invocation routes',
+    text='21 collection filters on 0-12-element inputs with frequent duplicate and case-variant keys (ints, strings incl. Markup, tuples; raw or inside dicts, objects, nested), positional and keyword arguments: the result must equal the documented partition, order, selection or aggregate, identically through call_filter and a rendered template, in sync and async environments, for list, tuple, generator and async-generator inputs; inputs and arguments are deep-compared before and after. 112k cases quick, 1.7M thorough; 15/15 non-equivalent mutants killed incl. reverting F8, F11, F45.',
+    note='Spec transcription (vt/ref/filterspec.py never imports jinja2.filters); keys in one input mutually comparable; min/max tie choice unspecified; async generators only for async-aware filters (anything else is the F27 class).',
+    design_ref="DESIGN.md §4 C22",
+)
+
+CHECKS["C23"] = dict(
+    category='exploration',
+    technique='property-based test: generated values and arguments for 18 string and number filters, each judged by an exact specification or a two-directional validity predicate',
+    text='Strings from chunk pools (long and hyphenated words, all line-break variants, Unicode whitespace, markup, Markup instances), numbers from 0, huge, non-finite, bools, None, containers and ~50 numeric spellings, lengths and widths around the boundary, through call_filter and templates, sync and async: truncate length/leeway/ellipsis arithmetic, wordwrap losslessness and width, indent first/blank rules, case filters, replace, format, striptags, urlencode, filesizeformat units, round directions and the never-raise/default contract of int and float. 144k cases quick, 2.1M thorough; 18/18 mutants killed incl. reverting F9/F10.',
+    note='Documented preconditions (length >= len(end), width >= 1); explicitly listed undefined zones accepted either way (whitespace-only lines, case after punctuation, in-word joiners, unit boundaries); round has a float-rounding tolerance.',
+    design_ref="DESIGN.md §4 C23",
+)
+
+CHECKS["C24"] = dict(
+    category='exploration',
+    technique='property-based / adversarial fuzz test with harness-side strict tokenizers, round trips and tracer tokens',
+    text='tojson output has none of < > & \', is Markup and json.loads back to the value; xmlattr output re-parses with an HTML-attribute tokenizer to exactly the non-None items (keys/values equal after one unescape), keys with ASCII whitespace, /, > or = raise ValueError and no other key does; urlize output tokenises into text without raw < > " \' and well-formed anchors (whitespace-free href that is a prefix-completed part of an input word, escaped rel/target, text preserved, canonical URLs linked); escape/forceescape equal the MarkupSafe mapping; for indent, replace, join, format, truncate, wordwrap under autoescape no tracer token from a plain value or argument reaches the output unescaped. 72k cases quick, 1.06M thorough; 19/19 non-equivalent mutants killed incl. reverting F24.',
+    note='Inputs to urlize and xmlattr are plain strings (Markup is trusted by design); valid extra_schemes; over-escaping of safe arguments is not judged.',
+    design_ref="DESIGN.md §4 C24",
+)
+
 NOT_YET = "check not built yet in this session (see DESIGN.md §8 for the order of work)"
